@@ -26,14 +26,14 @@ def num(v: int) -> bytes:
 
 def lzma1_raw(data: bytes, dict_size: int = 1 << 16):
     """-> (props5, raw LZMA1 stream without end marker semantics the reader needs)."""
-    filt = {"id": lzma.FILTER_LZMA1, "dict_size": dict_size, "lc": 3, "lp": 0, "pb": 2}
+    filt = {"id": lzma.FILTER_LZMA1, "preset": 1, "dict_size": dict_size, "lc": 3, "lp": 0, "pb": 2}
     alone = lzma.compress(data, format=lzma.FORMAT_ALONE, filters=[filt])
     return alone[:5], alone[13:]
 
 
 def lzma2_raw(data: bytes, dict_size: int = 1 << 16):
     """-> (props1, raw LZMA2 stream)."""
-    filt = {"id": lzma.FILTER_LZMA2, "dict_size": dict_size}
+    filt = {"id": lzma.FILTER_LZMA2, "preset": 1, "dict_size": dict_size}
     raw = lzma.compress(data, format=lzma.FORMAT_RAW, filters=[filt])
     # dictionary-size property byte: smallest p with size(p) >= dict_size
     p = 0
